@@ -769,13 +769,32 @@ def mobility_paths(prog, rb, buf, head, cls_keys, limit=4000):
         if not (it.k == "call" and it.a[0].endswith(("Iterator::rev", "Iterator>::rev")) and len(it.a[1]) == 1):
             return None
         chars = strip_refs(it.a[1][0])
-        if not (chars.k == "call" and chars.a[0].endswith("::chars") and any(self_path(x) == (buf,) for x in chars.walk())):
+        if not (chars.k == "call" and chars.a[0].endswith("::chars") and len(chars.a[1]) == 1):
             return None
+
+        def is_buf(x):
+            x = strip_refs(peel_conv(x))
+            while x.k == "call" and x.a[0].endswith(("::deref", "String::as_str", "::as_ref", "::borrow")) and len(x.a[1]) == 1:
+                x = strip_refs(peel_conv(x.a[1][0]))
+            return self_path(x) == (buf,)
+        src = strip_refs(peel_conv(chars.a[1][0]))
+        cut = None          # a mark taken off the end before reading: `text.strip_suffix(c).unwrap_or(text)`
+        if not is_buf(src):
+            if src.k == "call" and src.a[0].endswith("unwrap_or") and len(src.a[1]) == 2 and is_buf(src.a[1][1]):
+                ss = strip_refs(peel_conv(src.a[1][0]))
+                if ss.k == "call" and ss.a[0].endswith("::strip_suffix") and len(ss.a[1]) == 2 and is_buf(ss.a[1][0]) and is_const(strip_refs(ss.a[1][1]), "char"):
+                    cut = const_val(strip_refs(ss.a[1][1]))
+            if cut is None:
+                return None         # not the text itself: positions from the end of something else
         tmp = t["args"][0]["place"]
         owner = [s["rv"]["place"] for s in blk["stmts"] if s["k"] == "assign" and s["place"]["l"] == tmp["l"] and not s["place"]["p"] and s["rv"]["k"] == "ref"]
         if tmp["p"] or len(owner) != 1 or owner[0]["p"]:
             return None
         seen = dict(st)
+        if cut is not None:
+            if ("cut", owner[0]["l"]) not in seen:
+                return ("fork", owner[0]["l"], cut)
+            skipped += seen[("cut", owner[0]["l"])]
         k = seen.get(owner[0]["l"], 0)
         if peek_only:
             return (owner[0]["l"], skipped + k + 1)
@@ -823,7 +842,18 @@ def mobility_paths(prog, rb, buf, head, cls_keys, limit=4000):
                     rec(t["target"], env_no, st, atoms + [("eq", k_, const_val(cv), False)], onpath | {bb})
                     return
             if not t["dest"]["p"]:
-                env[t["dest"]["l"]] = cursor(blk, t, name, args, st) or mk_call(name, args, bb, t)
+                cr = cursor(blk, t, name, args, st)
+                if isinstance(cr, tuple) and cr and cr[0] == "fork":
+                    # the first read of a text whose last character was taken off if it is c: two cases, each with its own numbering
+                    for took in (True, False):
+                        st2 = dict(st)
+                        st2[("cut", cr[1])] = 1 if took else 0
+                        env2 = dict(env)
+                        env2[t["dest"]["l"]] = cursor(blk, t, name, args, st2)
+                        if t.get("target") is not None:
+                            rec(t["target"], env2, st2, atoms + [("eq", 1, cr[2], took)], onpath | {bb})
+                    return
+                env[t["dest"]["l"]] = cr or mk_call(name, args, bb, t)
             if t.get("target") is not None:
                 rec(t["target"], env, st, atoms, onpath | {bb})
             return
